@@ -1170,6 +1170,51 @@ def ascending_index_of(e):
     return None
 
 
+def root_local(fn, op_or_place):
+    """the variable an operand / place ultimately names: temporaries that are plain copies, moves or reborrows of
+    another local are followed back (so the answer does not depend on what the variable is called)"""
+    p = op_place(op_or_place) if isinstance(op_or_place, dict) and ("move" in op_or_place or "copy" in op_or_place) else op_or_place
+    seen = set()
+    while isinstance(p, dict) and "l" in p and p["l"] not in seen:
+        l = p["l"]
+        seen.add(l)
+        if fn.locals[l].get("user") or fn.is_param(l):
+            return l
+        sd = fn.single_def(l)
+        if sd is None or sd[2] != "assign":
+            return l
+        rv = fn.blocks[sd[0]]["stmts"][sd[1]]["rv"]
+        if rv["k"] == "use" and op_place(rv["op"]) is not None and is_plain_local(op_place(rv["op"])):
+            p = op_place(rv["op"])
+        elif rv["k"] == "ref" and is_plain_local(rv["place"]):
+            p = rv["place"]
+        elif rv["k"] == "ref" and rv["place"].get("p") == ["deref"]:
+            p = {"l": rv["place"]["l"]}                  # a reborrow `&*r`
+        elif rv["k"] == "use" and op_place(rv["op"]) is not None and op_place(rv["op"]).get("p") == ["deref"]:
+            p = {"l": op_place(rv["op"])["l"]}           # `*r` copied out
+        elif rv["k"] == "cast" and op_place(rv["op"]) is not None and is_plain_local(op_place(rv["op"])):
+            p = op_place(rv["op"])
+        else:
+            return l
+    return p["l"] if isinstance(p, dict) and "l" in p else None
+
+
+def locals_defined_as(fn, res, pred):
+    """user-visible locals (or temporaries) having a whole definition whose resolved value satisfies pred"""
+    out = []
+    for l, ds in fn.defs().items():
+        for d in ds:
+            if d[2] == "partial" or d[0] not in fn.reachable(0):
+                continue
+            try:
+                if pred(res._def_expr(d, 0)):
+                    out.append(l)
+                    break
+            except (IndexError, TypeError, KeyError):
+                pass
+    return out
+
+
 def vec_tail_appends(fn):
     """(block, term) of the calls that add all elements of their argument at the END of a Vec, in order:
     `v.append(&mut w)`, `v.extend(w)`, `v.extend_from_slice(&w)` - interchangeable ways to write concatenation."""
